@@ -919,6 +919,8 @@ func c17Run(c *fw.Ctx) {
 	locals := []localScenario{
 		{Name: "local/orders-and-users", Threads: [][]localQ{{q("u1", "a", "b"), q("u1", "b", "a")}, {q("u2", "a", "b")}, {edit("a"), q("u1", "a")}}, Expiry: 1, Bound: b},
 	}
+	// user and group names that run together into the same text ("u1"+"a" and "u"+"1a"; with a second group too)
+	locals = append(locals, localScenario{Name: "local/names-that-run-together", Threads: [][]localQ{{q("u1", "a"), q("u", "1a")}, {q("u1", "a", "b"), q("u", "1a", "b")}}, Expiry: 0, Bound: 1})
 	upd := func(g string) localQ { return localQ{Groups: []string{g}, Refresh: true} }
 	ba := 1
 	if c.Thorough() {
